@@ -107,6 +107,11 @@ func runProgFast(p *Prog) *Result {
 	ir.DeclFunc("hk", func() { tmu.Lock(); trace.Hooks++; tmu.Unlock() })
 	ir.DeclFunc("nc", func(v interface{}) interface{} { return tr.NoCap{V: v} })
 	ir.DeclFunc("par", parCall)
+	if p.Mode["interop"] != "" {
+		for name, f := range interopFuncs {
+			ir.DeclFunc(name, f)
+		}
+	}
 	if y := p.Mode["yield"]; y != "" {
 		n, _ := strconv.ParseUint(y, 10, 64)
 		fast.VerifSetYieldSeed(n)
